@@ -205,3 +205,5 @@ func CopyInts(l []int) []int {
 	}
 	return append([]int{}, l...)
 }
+
+func stringsReader(s string) *strings.Reader { return strings.NewReader(s) }
